@@ -209,7 +209,7 @@ pub fn run(e: &'static Engine) {
     e.par(jobs);
     // automatic-mask sweep where exact penalty ties occur (versions 1..14): "mask reported / named in the format
     // information" vs "mask physically applied" can only come apart when the selection is automatic
-    let total: u32 = e.tier.pick(16000, 240000);
+    let total: u32 = e.tier.pick(64000, 480000);
     let shards = e.tier.pick(32u32, 96);
     let mut jobs: Vec<Job> = Vec::new();
     for _ in 0..shards {
